@@ -249,10 +249,10 @@ def monitor_c14(case, impl_line):
                 for cl, comps, size, ids in sink:
                     rec = cl[0] == 'live' or c['scheme'] == 0 or (c['scheme'] == 1 and cl[1] == today)
                     for i in ids:
-                        if i in aband: continue
                         if rec:
-                            W.append(i); orph.discard(i)
-                        else: orph.add(i)
+                            # recovered (possibly re-adopted after an earlier mode-"w" restart left it behind)
+                            W.append(i); orph.discard(i); aband.discard(i)
+                        elif i not in aband: orph.add(i)
                 for i in W:
                     if i not in pos: pos[i] = npos; npos += 1
             else:
